@@ -287,14 +287,33 @@ impl Lintable for Expression
 				right.lint(linter);
 			}
 			Expression::Unary {
-				op: _,
+				op,
 				expression,
 				location: _,
 				location_of_op: _,
-			} =>
+			} => match (op, expression.as_ref())
 			{
-				expression.lint(linter);
-			}
+				(
+					UnaryOp::Negative,
+					Expression::BitIntegerLiteral {
+						value,
+						value_type: Some(Ok(value_type)),
+						location,
+					},
+				) if value_type.is_signed() =>
+				{
+					// The negation of a literal can be the minimum value.
+					if *value > linter.max_u128(value_type) + 1
+					{
+						let lint = Lint::IntegerLiteralTruncation {
+							value_type: value_type.clone(),
+							location_of_literal: location.clone(),
+						};
+						linter.lints.push(lint);
+					}
+				}
+				_ => expression.lint(linter),
+			},
 			Expression::BooleanLiteral {
 				value: _,
 				location: _,
